@@ -548,7 +548,204 @@ class SolveStructure(Harness):
         return 4
 
 
-HARNESSES = [Derived(), SolveStructure()]
+class Finalize(Harness):
+    """the post-processing step of solve() (IterativeIASolverBaseClass.
+    _solve_finalize: removal of dead dimensions of a rank-deficient precoder)
+    run on a real MaxSinrIASolver whose precoders / filters were set through
+    the public setters: whatever the singular values are (every outcome of
+    the condition-number test and of the count of significant singular
+    values is explored), the transmit power of every user is unchanged, the
+    reduced precoder has unit norm and the stream counts / shapes agree."""
+    name = 'finalize'
+    modules = (ALG, IAB, MU, MISC)
+    functions = (ALG + ':IterativeIASolverBaseClass._solve_finalize',
+                 MISC + ':get_principal_component_matrix',
+                 IAB + ':IASolverBaseClass.set_precoders',
+                 IAB + ':IASolverBaseClass.full_F')
+    bounds = ('K = 2, Nr = Nt = 2, two streams for user 0 and one for user 1; '
+              'precoders symbolic complex, powers symbolic positive')
+    stubs = ('np.linalg.svd -> contract stub (unitary factors, positive '
+             'singular values)', )
+    assumptions = ('full-rank svd contract (the dead dimension has a tiny, '
+                   'not an exactly zero singular value)', )
+    outside = ('full_F = F sqrt(P) after a reduction (relates the svd of F to '
+               'the svd of sqrt(P) F: spectral, concrete runs only)',
+               'whether the iteration produces a rank-deficient precoder '
+               '(concrete MaxSinr runs with a very weak user)')
+    div_mode = 'assume'
+    reach = 'concrete'
+    builtins = {k: v for k, v in BUILTINS.items() if k != 'int'}
+    unit_wall_s = {'quick': 300, 'thorough': 900}
+
+    def configs(self, tier):
+        return [dict(filt='W'), dict(filt='W_H')]
+
+    def _run(self, cfg, mk, alg):
+        mu = repo_module(MU)
+        K = 2
+        H = mk.cmat('H', (4, 4))
+        ch = mu.MultiUserChannelMatrix()
+        ch.init_from_channel_matrix(H, np.array([2, 2]), np.array([2, 2]), K)
+        ch.noise_var = mk.pos('nv')
+        sol = alg.MaxSinrIASolver(ch)
+        F = np.empty(K, dtype=object)
+        W = np.empty(K, dtype=object)
+        for k in range(K):
+            # (user 1 keeps a single stream: finalize must leave it alone)
+            F[k] = mk.fmat('F%d' % k) if k == 0 else mk.cmat('F1', (2, 1))
+            W[k] = mk.cmat('W%d' % k, (2, 2) if k == 0 else (
+                (2, 1) if cfg['filt'] == 'W' else (1, 2)))
+        P = np.array([mk.pos('p%d' % k) for k in range(K)], dtype=object)
+        if not any(isinstance(x, SReal) for x in P):
+            P = P.astype(float)
+        sol.set_precoders(F=F, P=P)
+        if cfg['filt'] == 'W':
+            sol.set_receive_filters(W=W)
+        else:
+            sol.set_receive_filters(W_H=W)
+        before = [np.array(f) for f in sol.full_F]
+        sol._solve_finalize()
+        return sol, before, P
+
+    def sym(self, ctx, cfg):
+        ctx.lazy_decide = True
+        ctx.norm_positive = True
+        ctx.norm_unit_check = True
+        alg = repo_module(ALG)
+
+        class Mk:
+            @staticmethod
+            def cmat(name, shape):
+                return sym_array(ctx, name, shape, kind='complex')
+
+            fmat = staticmethod(lambda name: sym_array(ctx, name, (2, 2),
+                                                       kind='complex'))
+
+            @staticmethod
+            def pos(name):
+                return ctx.real(name, positive=True)
+        sol, before, P = self._run(cfg, Mk, alg)
+        for k in range(2):
+            ns = int(sol.Ns[k])
+            ok = sol.F[k].shape == (2, ns) and sol.full_F[k].shape == (2, ns)
+            ctx.record('shapes-follow-Ns[%d]' % k, 'unsat' if ok else 'sat',
+                       'structural', model={})
+            pw0 = _norm(before[k], lambda t: t)
+            pw1 = _norm(sol.full_F[k], lambda t: t)
+            prove_zero(ctx, 'user-power-unchanged-by-finalize[%d]' % k,
+                       np.array([pw1 - pw0], dtype=object), rounds=2,
+                       max_inst=1500, fallback_exact=False)
+            if k == 0 and ns < 2:
+                prove_zero(ctx, 'reduced-F-unit-norm[%d]' % k,
+                           np.array([_norm(sol.F[k], lambda t: t) - 1],
+                                    dtype=object), rounds=2, max_inst=1500,
+                           fallback_exact=False)
+
+    def _numeric(self, cfg, rng):
+        alg = repo_module(ALG)
+        weak = rng.choice([1e-6, 3e-7, 1.0])
+
+        class Mk:
+            @staticmethod
+            def cmat(name, shape):
+                return crandn(rng, *shape)
+
+            @staticmethod
+            def fmat(name):
+                # second direction (almost) dead
+                u = np.linalg.qr(crandn(rng, 2, 2))[0]
+                v = np.linalg.qr(crandn(rng, 2, 2))[0]
+                f = u @ np.diag([1.0, weak]) @ v.conj().T
+                return f / np.linalg.norm(f)
+
+            @staticmethod
+            def pos(name):
+                return rng.uniform(0.2, 3.0) * rng.choice([1e-4, 1.0, 100.0])
+        sol, before, P = self._run(cfg, Mk, alg)
+        bad = []
+        for k in range(2):
+            ns = int(sol.Ns[k])
+            if sol.F[k].shape != (2, ns) or sol.full_F[k].shape != (2, ns):
+                bad.append('shapes')
+            if k == 0 and abs(np.linalg.norm(sol.F[k]) - 1) > 1e-9:
+                bad.append('F-not-unit-norm')
+            pw = np.linalg.norm(sol.full_F[k])**2
+            if k == 0 and abs(pw - float(P[k])) > 1e-8 * float(P[k]):
+                bad.append('power-not-met-after-stream-reduction'
+                           if ns < 2 else 'power-not-met')
+            if np.max(np.abs(sol.full_F[k] - sol.F[k] * np.sqrt(
+                    float(P[k])))) > 1e-7 * np.sqrt(float(P[k])):
+                bad.append('full_F!=F*sqrt(P)')
+        return sorted(set(bad))
+
+    def _solve_probe(self, rng):
+        """a real MaxSinr solve in which one user is orders of magnitude
+        weaker: the solver drops one of its streams (beyond the symbolic
+        bound: iteration to convergence)"""
+        alg = repo_module(ALG)
+        mu = repo_module(MU)
+        n = reduced = 0
+        bad = []
+        for _ in range(2):
+            ch = mu.MultiUserChannelMatrix()
+            ch.set_channel_seed(rng.randrange(1 << 30))
+            ch.randomize(4, 4, 3)
+            ch.noise_var = 1e-8
+            for P in (np.array([1e-4, 100.8, 230.0]),
+                      np.array([150.0, 2e-4, 90.0])):
+                sol = alg.MaxSinrIASolver(ch)
+                sol._rs = np.random.RandomState(rng.randrange(1 << 30))
+                sol.max_iterations = 120
+                sol.solve(2, P)
+                reduced += int(np.any(np.asarray(sol.Ns) < 2))
+                for k in range(3):
+                    ns = int(sol.Ns[k])
+                    pw = np.linalg.norm(sol.full_F[k])**2
+                    if sol.F[k].shape != (4, ns):
+                        bad.append('shapes')
+                    if abs(np.linalg.norm(sol.F[k]) - 1) > 1e-8:
+                        bad.append('F-not-unit-norm')
+                    if abs(pw - P[k]) > 1e-8 * P[k]:
+                        bad.append('power-not-met-after-stream-reduction'
+                                   if ns < 2 else 'power-not-met')
+                    if np.max(np.abs(sol.full_F[k] - sol.F[k] * np.sqrt(
+                            P[k]))) > 1e-7 * np.sqrt(P[k]):
+                        bad.append('full_F!=F*sqrt(P)')
+                    eq = sol.full_W_H[k] @ ch.get_Hkl(k, k) @ sol.full_F[k]
+                    if np.max(np.abs(eq - np.eye(ns))) > 1e-6:
+                        bad.append('filter-does-not-invert')
+                n += 1
+        return n, reduced, sorted(set(bad))
+
+    def replay(self, cfg, name, model):
+        import random
+        for seed in range(12):
+            bad = self._numeric(cfg, random.Random(seed))
+            if bad:
+                return dict(reproduced=True,
+                            key='C10/finalize/' + '+'.join(bad),
+                            detail=dict(seed=seed, cfg=cfg, bad=bad))
+        return dict(reproduced=False, key=None, detail='no witness')
+
+    def concrete(self, cfg, rng):
+        from pysym.runner import ConcreteViolation
+        for _ in range(6):
+            bad = self._numeric(cfg, rng)
+            if bad:
+                raise ConcreteViolation('C10/finalize/' + '+'.join(bad) +
+                                        ':concrete-probe', dict(cfg=cfg))
+        n = 6
+        if cfg['filt'] == 'W':
+            k, reduced, bad = self._solve_probe(rng)
+            if bad:
+                raise ConcreteViolation(
+                    'C10/solve/MaxSinrIASolver/weak-user:' + '+'.join(bad) +
+                    ':concrete-probe', dict(runs=k, reduced=reduced))
+            n += k
+        return n
+
+
+HARNESSES = [Derived(), SolveStructure(), Finalize()]
 
 MANIFEST = dict(
     category='model_checking',
